@@ -42,6 +42,29 @@ def has_quantifier(e):
 _keep = []
 
 
+def const_ids(e, wanted=None):
+    """Ids of the uninterpreted constants occurring in e (restricted to `wanted` when given)."""
+    out = set()
+    seen = set()
+    stack = [e]
+    while stack:
+        x = stack.pop()
+        i = x.get_id()
+        if i in seen:
+            continue
+        seen.add(i)
+        if z3.is_quantifier(x):
+            stack.append(x.body())
+            continue
+        if z3.is_app(x):
+            if x.num_args() == 0:
+                if x.decl().kind() == z3.Z3_OP_UNINTERPRETED and (wanted is None or i in wanted):
+                    out.add(i)
+            else:
+                stack.extend(x.children())
+    return out
+
+
 class Obligation:
     __slots__ = ('name', 'pc', 'goal', 'info', 'kind')
 
@@ -125,7 +148,10 @@ class EngineBase:
             if f is True:
                 continue
             if self.binders and not isinstance(f, bool):
-                used = set(v.get_id() for v in z3.z3util.get_vars(f))
+                allids = set()
+                for b in self.binders:
+                    allids |= b['ids']
+                used = const_ids(f, allids)
                 target = None
                 for b in self.binders:
                     if used & b['ids']:
